@@ -51,41 +51,6 @@ fn coq_values(vals: &[Vec<u8>]) -> String {
     coq::list(vals.iter().map(|v| coq::bytes(v)))
 }
 
-/// the largest chunk a skewed input makes the binary encoder emit, by the documented rule
-pub fn binary_known_class(offs: &[u64], bw: u64) -> bool {
-    // class Known_C26_binary_doubling_overshoot: some power-of-two window [i, i+2k) whose first k
-    // values fit 4 KiB but whose 2k values exceed MAX_MINIBLOCK_BYTES. Evaluated on the input only.
-    let n = offs.len() - 1;
-    let mut i = 0usize;
-    // replay the chunking rule on lengths only
-    while i < n {
-        let mut num = 1usize;
-        let mut newn = 2usize;
-        let stop;
-        loop {
-            if i + newn >= offs.len() {
-                let sz = offs[n] - offs[i] + ((offs.len() - i) as u64) * bw;
-                stop = if sz <= 4096 { n } else { i + num };
-                break;
-            }
-            let sz = offs[i + newn] - offs[i] + (newn as u64 + 1) * bw;
-            if sz <= 4096 {
-                num = newn;
-                newn *= 2;
-            } else {
-                stop = i + newn;
-                break;
-            }
-        }
-        let bytes = offs[stop] - offs[i] + ((stop - i) as u64 + 1) * bw;
-        if bytes.next_multiple_of(bw) > MAX_MINIBLOCK_BYTES {
-            return true;
-        }
-        i = stop;
-    }
-    false
-}
-
 pub fn run_binary(args: &Args, sink: &mut Sink, rng: &mut Rng) {
     const REQ: &str = "Common.Base Codec.Model_Bytes Codec.Model_Binary";
     let mut s_enc = Stream::new("binary_encode", REQ, "chk_binary_encode", "N * list N * list N", "outcome (list (list N) * list chunk)");
@@ -105,9 +70,22 @@ pub fn run_binary(args: &Args, sink: &mut Sink, rng: &mut Rng) {
         };
         shapes.push((bits, n, style));
     }
+    // style 100: the repaired defect's input (256 one-byte values, then 256 values of 255 bytes)
+    shapes.insert(0, (32, 512, 100));
     for (bits, n, style) in shapes {
         let bw = (bits / 8) as u64;
-        let (offs, data) = gen_strings(rng, n, style);
+        let (offs, data) = if style == 100 {
+            let mut o = vec![0u64];
+            let mut d = vec![];
+            for i in 0..512u64 {
+                let len = if i < 256 { 1 } else { 255 };
+                d.extend(std::iter::repeat((i % 251) as u8).take(len));
+                o.push(d.len() as u64);
+            }
+            (o, d)
+        } else {
+            gen_strings(rng, n, style)
+        };
         let vals = values_of(&offs, &data);
         let human = json!({"codec": "binary", "bits": bits, "n": n, "style": style, "bytes": data.len()});
         sink.count(&format!("binary:style{style}"));
@@ -121,12 +99,10 @@ pub fn run_binary(args: &Args, sink: &mut Sink, rng: &mut Rng) {
             Err(_) => Err(true),
         };
         b_enc.push(&mut s_enc, format!("({}, {}, {})", bw, nlist(&offs), coq::bytes(&data)), coq::outcome(&out), human.clone());
-        let known = binary_known_class(&offs, bw);
         match &r {
             Ok(Ok((c, _))) => {
                 match chunk_limit_breach(c, true) {
                     None => sink.oracle_ok(),
-                    Some(b) if known => sink.oracle_fail(Some("Known_C26_binary_doubling_overshoot"), &b, human.clone()),
                     Some(b) => sink.oracle_fail(None, &format!("binary chunk limits: {b}"), human.clone()),
                 }
                 // round trip chunk by chunk
@@ -169,13 +145,7 @@ pub fn run_binary(args: &Args, sink: &mut Sink, rng: &mut Rng) {
                     }
                 }
                 let good = ok && back == vals;
-                if good {
-                    sink.oracle_ok()
-                } else if known {
-                    sink.oracle_fail(Some("Known_C26_binary_doubling_overshoot"), "binary round trip differs", human.clone())
-                } else {
-                    sink.oracle_fail(None, "binary round trip differs", human.clone())
-                }
+                oracle(sink, good, "binary round trip differs", human.clone());
             }
             _ => oracle(sink, false, "binary compress failed on a valid block", human.clone()),
         }
